@@ -1899,6 +1899,11 @@ class Symex:
                     if len(args) > 2:
                         return args[2]
                     raise
+                except Raised as r:
+                    # an attribute hook modelling a closed object raises AttributeError: the default applies
+                    if r.name == "AttributeError" and len(args) > 2:
+                        return args[2]
+                    raise
         if name == "hasattr" and isinstance(args[0], Obj) and isinstance(args[1], str):
             return args[1] in args[0].attrs or bool(args[0].cls and self.find_method(args[0].cls, args[1]))
         if name == "type" and len(args) == 1 and (_plain(args[0]) or isinstance(args[0], (list, tuple, dict, set))):
